@@ -72,7 +72,13 @@ func verifCodes(class string, all bool, rng *rand.Rand) []rune {
 
 func verifEncodeRune(r rune, enc string, rng *rand.Rand) string {
 	switch enc {
-	case "raw", "netraw":
+	case "raw":
+		return string(r)
+	case "netraw":
+		/* on the wire a C1 control may also travel as a single 8-bit byte (not valid UTF-8) */
+		if r >= 0x80 && r <= 0x9f && rng.Intn(2) == 0 {
+			return string([]byte{byte(r)})
+		}
 		return string(r)
 	case "htmlref":
 		switch rng.Intn(3) {
@@ -243,7 +249,10 @@ func (v *verifSanitizer) obligation(o verifObligation, all bool) {
 			case "link_url":
 				doc := base()
 				doc["attachment"] = []any{map[string]any{"type": "Link", "href": "https://example.org/files/" + payload},
-					map[string]any{"type": "Document", "url": "https://ex" + payload + "ample.org/files/x"}}
+					map[string]any{"type": "Document", "url": "https://ex" + payload + "ample.org/files/x"},
+					map[string]any{"type": "Link", "href": "https://example.org/search?q=" + payload},
+					map[string]any{"type": "Link", "href": "mailto:" + payload + "@example.org"},
+					map[string]any{"type": "Image", "url": "https://user" + payload + "@example.org/x#frag" + payload}}
 				doc["url"] = "https://example.org/media/" + payload
 				if post, err := NewPostFromObject(doc, nil); err == nil {
 					v.show(o, post, "post.attachment.href")
